@@ -94,9 +94,10 @@ Definition remote_of_flags (f : N) : bool := N.testbit f 9.
 Definition res_of_pb (r : pb_resource) : option resource :=
   option_map (fun a => mkRes a (pr_schema r)) (attrs_of_pb (pr_attrs r)).
 Definition scope_of_pb (s : pb_scope) : option scope :=
-  option_map (mkScope (psc_name s) (psc_version s) (psc_schema s)) (attrs_of_pb (psc_attrs s)).
+  option_map (fun a => mkScope (psc_name s) (psc_version s) (psc_schema s) a false) (attrs_of_pb (psc_attrs s)).
 Definition canon_res (r : resource) : resource := mkRes (canon_attrs (r_attrs r)) (r_schema r).
-Definition canon_scope (s : scope) : scope := mkScope (sc_name s) (sc_version s) (sc_schema s) (canon_attrs (sc_attrs s)).
+(** what a reader sees of a scope: the spelling of an empty attribute set is not on the wire *)
+Definition canon_scope (s : scope) : scope := mkScope (sc_name s) (sc_version s) (sc_schema s) (canon_attrs (sc_attrs s)) false.
 
 (** * Spans *)
 Definition event_of_pb (e : pb_event) : option event :=
@@ -163,7 +164,7 @@ Definition lrec_same (lx : laxity) (o x : lrec) : bool :=
       payload [o] (resource groups, each holding scope groups, each holding items) against the
       exported batch [l].  [req] says when an item's resource is the group's resource. *)
 Section Groups.
-  Context {B : Type} (same : B -> B -> bool) (req : resource -> resource -> bool).
+  Context {B : Type} (same : B -> B -> bool) (req : resource -> resource -> bool) (picky : B -> bool).
   Definition sceq : scope -> scope -> bool := eqb_of scope_eq_dec.
   Fixpoint nodupb {A} (eq : A -> A -> bool) (l : list A) : bool :=
     match l with [] => true | a :: r => negb (existsb (eq a) r) && nodupb eq r end.
@@ -176,16 +177,55 @@ Section Groups.
   (** the items of the batch that belong to resource [R] and scope [S], in batch order *)
   Definition members (R : resource) (S : scope) (l : list (item B)) : list B :=
     map it_body (filter (fun x => req (it_res x) R && sceq (it_scope x) S) l).
-  Definition groups_ok (l : list (item B)) (o : list (resource * list (scope * list B))) : bool :=
-    (* one group per resource, one per (resource, scope); none empty *)
+  (** The strict reading: one group per resource and one per (resource, scope), none empty, each
+      holding exactly the batch's items of that resource and scope, in batch order. *)
+  Definition groups_exact (l : list (item B)) (o : list (resource * list (scope * list B))) : bool :=
     nodupb req (map fst o) &&
     forallb (fun rg => negb (is_nil (snd rg)) && nodupb sceq (map fst (snd rg)) &&
                        forallb (fun sg => negb (is_nil (snd sg)) &&
-                                          (* exactly the batch's items of that resource and scope, in order *)
                                           all2 same (snd sg) (members (fst rg) (fst sg) l)) (snd rg)) o &&
-    (* every item of the batch has its group *)
     forallb (fun x => existsb (fun rg => req (it_res x) (fst rg) &&
                                          existsb (fun sg => sceq (it_scope x) (fst sg)) (snd rg)) o) l.
+
+  (** The split reading: the items of one resource and scope may arrive in SEVERAL scope groups
+      carrying that same scope (OTLP allows repeated scopes; the code splits a scope whose empty
+      attribute set is spelled in two ways), as long as nothing is lost, duplicated or misplaced:
+      every group is non-empty and a sub-sequence (batch order) of the batch's items of its resource
+      and scope, and all groups of one scope together hold exactly those items.  [picky x]: the
+      batch item [x] is within the range guards, i.e. [same _ x] is a real comparison; such items are
+      paired first. *)
+  Fixpoint take_out (x : B) (l : list B) : option (list B) :=
+    match l with
+    | [] => None
+    | y :: r => if same x y then Some r else match take_out x r with Some r' => Some (y :: r') | None => None end
+    end.
+  Fixpoint same_items (a b : list B) : bool :=
+    match a with
+    | [] => is_nil b
+    | x :: a' => match take_out x b with Some b' => same_items a' b' | None => false end
+    end.
+  Fixpoint subseq_b (a b : list B) {struct b} : bool :=
+    match b with
+    | [] => is_nil a
+    | y :: b' => match a with
+                 | [] => true
+                 | x :: a' => if same x y then subseq_b a' b' else subseq_b a b'
+                 end
+    end.
+  Definition picky_first (m : list B) : list B := filter picky m ++ filter (fun x => negb (picky x)) m.
+  Definition gather (S : scope) (sgs : list (scope * list B)) : list B :=
+    flat_map (fun sg => if sceq (fst sg) S then snd sg else []) sgs.
+  Definition groups_split (l : list (item B)) (o : list (resource * list (scope * list B))) : bool :=
+    nodupb req (map fst o) &&
+    forallb (fun rg => negb (is_nil (snd rg)) &&
+                       forallb (fun sg => negb (is_nil (snd sg)) &&
+                                          subseq_b (snd sg) (members (fst rg) (fst sg) l) &&
+                                          same_items (gather (fst sg) (snd rg)) (picky_first (members (fst rg) (fst sg) l))) (snd rg)) o &&
+    forallb (fun x => existsb (fun rg => req (it_res x) (fst rg) &&
+                                         existsb (fun sg => sceq (it_scope x) (fst sg)) (snd rg)) o) l.
+  (** What a payload is judged by. *)
+  Definition groups_ok (l : list (item B)) (o : list (resource * list (scope * list B))) : bool :=
+    groups_exact l o || groups_split l o.
 End Groups.
 
 Definition res_same (lx : laxity) (a b : resource) : bool :=
@@ -207,13 +247,13 @@ Definition canon_item {B} (f : B -> B) (x : item B) : item B :=
 Definition trace_spec (lx : laxity) (l : list (item span)) (o : list (pb_resource * list (pb_scope * list pb_span))) : bool :=
   match decode_groups span_of_pb o with
   | None => false
-  | Some g => groups_ok span_same (res_same lx) (map (canon_item (fun s => s)) l) g
+  | Some g => groups_ok span_same (res_same lx) span_guard (map (canon_item (fun s => s)) l) g
   end.
 (** The log clause on a decoded payload. *)
 Definition log_spec (lx : laxity) (l : list (item lrec)) (o : list (pb_resource * list (pb_scope * list pb_lrec))) : bool :=
   match decode_groups (fun p => Some (lrec_of_pb p)) o with
   | None => false
-  | Some g => groups_ok (lrec_same lx) (res_same lx) (map (canon_item (fun r => r)) l) g
+  | Some g => groups_ok (lrec_same lx) (res_same lx) lrec_guard (map (canon_item (fun r => r)) l) g
   end.
 
 (** * Metrics *)
